@@ -621,6 +621,49 @@ def flush (F : Oracle) (sz : Nat) (w : World) (p : Pers) : World × Pers × Flus
 def compact (F : Oracle) (cfg : CompactCfg) (sz : Nat) (w : World) : World × CompactOut :=
   compactWith current.compact F cfg sz w
 
+/-! ### CheckpointManager::should_checkpoint, ManifestManager::{add_segment, update} -/
+
+/-- `CheckpointManager::should_checkpoint` on a loaded manifest: at least `min_segments` listed,
+    and the last checkpoint (named by its `timestamp_ms`) at least `interval` old;
+    `interval.as_millis() as u64` truncates modulo 2^64 (the code that exists) -/
+def shouldCheckpoint (m : Manifest) (minSegs intervalMs now : Nat) : Bool :=
+  if m.segments.length < minSegs then false
+  else match m.checkpoint with
+    | some c => !(decide (now - c.name < intervalMs % 2 ^ 64))
+    | none => true
+
+/-- `ManifestManager::add_segment` / `ManifestManager::update(|m| m.add_segment(info))` without a
+    concurrent writer: load (NOT load_or_create: a missing manifest is an error), add, save -/
+def managerAddSegment (F : Oracle) (w : World) (info : SegInfo) : World × Option Manifest :=
+  match w.get F manifestName with
+  | (w1, .ok (.manifest m)) =>
+    let m' := m.addSegment info
+    match saveManifest F w1 m' with
+    | (w2, true) => (w2, some m')
+    | (w2, false) => (w2, none)
+  | (w1, _) => (w1, none)
+
+/-! ### `needs_compaction` / `compact_if_needed` (what `CompactionWorker::run` calls every interval) -/
+
+/-- `Compactor::needs_compaction`: one manifest load; `manifest.segments.len() >= max_segments`;
+    `none` = `Err(_)` -/
+def needsCompaction (F : Oracle) (maxSegs : Nat) (w : World) : World × Option Bool :=
+  match loadOrCreate F w 0 with
+  | (w1, none) => (w1, none)
+  | (w1, some m) => (w1, some (decide (m.segments.length ≥ maxSegs)))
+
+/-- `Compactor::compact_if_needed`: `Ok(None)` (not needed, or `NothingToCompact`) is `.nothing` -/
+def compactIfNeededWith (fl : CompactFlags) (F : Oracle) (cfg : CompactCfg) (maxSegs sz : Nat) (w : World) :
+    World × CompactOut :=
+  match needsCompaction F maxSegs w with
+  | (w1, none) => (w1, .error)
+  | (w1, some false) => (w1, .nothing)
+  | (w1, some true) => compactWith fl F cfg sz w1
+
+/-- `compact_if_needed` of the current tree -/
+def compactIfNeeded (F : Oracle) (cfg : CompactCfg) (maxSegs sz : Nat) (w : World) : World × CompactOut :=
+  compactIfNeededWith current.compact F cfg maxSegs sz w
+
 /-- the manifest references only complete objects (and is itself complete) -/
 def refsComplete (st : Store) : Bool :=
   match NMap.get st manifestName with
